@@ -73,6 +73,7 @@ type task struct {
 	opLimit   int64
 	blockedAt int64 // value of syncEpoch when the task last found its primitive unavailable
 	prio      int64 // PCT
+	rdv       int32 // woken for a rendezvous on an unbuffered channel (runs one statement without the token)
 	rfd, wfd  int   // pipe hand-over
 }
 
@@ -194,6 +195,7 @@ func Init(c Config) {
 	}
 	cur, nTasks, active = -1, 0, false
 	halting, nClosed, Deadlock = false, 0, false
+	nPend, rdvActive = 0, false
 	defLimit = c.DefaultOpLimit
 	if defLimit <= 0 {
 		defLimit = Inf
@@ -315,7 +317,13 @@ func Go(f func()) {
 		go f()
 		return
 	}
-	Spawn(f)
+	// a goroutine started by the code under test works within the step budget
+	// of the operation that started it
+	lim := tasks[cur].opLimit
+	id := Spawn(f)
+	if lim < tasks[id].opLimit {
+		tasks[id].opLimit = lim
+	}
 }
 
 var pipeBuf [MaxTasks + 1][1]byte
